@@ -26,9 +26,13 @@ RULE = ("names: 1-3 links over child (Instance) / kids (List) / byname (Dict) wi
         "that ~60% of the mutations hit an object currently reachable along the name at the link the name follows "
         "there, the rest hit off-path attributes, detached objects, invalid indices / keys / objects (skipped on both "
         "sides), removal and re-registration; after EVERY operation every allocated object (also detached ones) is "
-        "probed on both scalars. Exhaustive: all histories of length <= 2 (quick) / <= 3 (thorough) over an 8-24 letter "
-        "alphabet (every op kind on the two upper objects, probes, rm, rg) on a 3-object tree for 8 fixed names, "
-        "registered before and after the tree is built. "
+        "probed on both scalars. List ops: reassign, append, insert, del, item and slice assignment, clear; dict ops: "
+        "reassign, __setitem__, update and |= mixing existing and new keys (ONE event with changed+added), setdefault, "
+        "del, pop, popitem, clear. 30% of the histories ('E') use a node class with value-based __eq__ (unhashable) "
+        "and replace items / dict values by equal CLONES, so that any use of == instead of identity shows. "
+        "Exhaustive: all histories of length <= 2 (quick) / <= 3 (thorough) over an 8-35 letter "
+        "alphabet (every op kind on the two upper objects, probes, rm, rg) on a 3-object tree for 10 fixed names "
+        "(2 of them with value-equality nodes), registered before and after the tree is built. "
         "A case is non-trivial when some handler was called; distinct = distinct canonical output line")
 TRUSTED = ["the reachability specification `reach`/`specCalls` (Model/Legacy.lean) is what observe is taken to promise; "
            "it is re-computed independently in Python on the real object graph (c16lib.levels) by the oracle",
